@@ -33,6 +33,28 @@ func buildShape(d *gdriver, shape string) error {
 		return err
 	}
 	switch shape {
+	case "first-placed-nowhere":
+		// a node whose first edge names no parent ("none" is what the library puts on the bus for an empty
+		// parent id), placed below a real node afterwards; it has a child of its own
+		a, err := mk(root, "group")
+		if err != nil {
+			return err
+		}
+		if d.r.Chance(0.5) {
+			if a, err = mk(a, "group"); err != nil {
+				return err
+			}
+		}
+		x := d.newID()
+		if e, err := d.sendEdge(x, "none", data.Points{{Type: data.PointTypeTombstone, Time: d.now(), Value: 0}, {Type: data.PointTypeNodeType, Text: "group"}}); err != nil || e != "" {
+			return fmt.Errorf("edge to no parent refused: %v %s", err, e)
+		}
+		d.Made = append(d.Made, x)
+		if err := mirror(x, a); err != nil {
+			return err
+		}
+		_, err = mk(x, "variable")
+		return err
 	case "chain":
 		p := root
 		for i := 0; i < 2+d.r.Intn(4); i++ {
@@ -118,7 +140,7 @@ func buildShape(d *gdriver, shape string) error {
 	return nil
 }
 
-var c06Shapes = []string{"chain", "wide", "mirror", "diamond", "tombstoned-middle", "two-parents-one-deleted", "deleted-then-undeleted", "random"}
+var c06Shapes = []string{"chain", "wide", "mirror", "diamond", "tombstoned-middle", "two-parents-one-deleted", "deleted-then-undeleted", "random", "first-placed-nowhere"}
 
 // checkRebroadcast compares tapped messages with the expected ancestor set.
 func checkRebroadcast(msgs []vlib.TapMsg, node, parent string, edge bool, want map[string]bool, sent data.Points) (sig, what string) {
@@ -172,7 +194,7 @@ func keysOf(m map[string]bool) []string {
 func runC06(tier string, _ []string) int {
 	c := vlib.NewCtx("C06", tier, "exploration")
 	vlib.SetPortBlock(6)
-	c.SetRule("per case a fresh instance and a graph of one generator class (chain, wide, mirror, diamond, tombstoned edge in the middle, node under two parents one of which is deleted, deleted then undeleted, random history); then every node (incl. the root and one detached node that has points but no edge) is written once with an acknowledged node batch and every placement once with an edge batch (newer than what is stored); an up.> subscription on the writer's connection is drained at the reply barrier and compared with the model: {node} + ancestors through live edges (node points) / through any edges (edge points) + the root sentinel, payload equal to the points sent. In every second case 4-9 random legal graph operations follow (mirror, move, delete, undelete, create) and every node and placement is written and checked again. (Thorough tier: one instance serves 66 000 writes, then 200 quiet nodes are written again at distances around 2^16 writes.) In every third case a concurrent phase follows: an edge is deleted / undeleted 3-8 times while a second connection writes back to back to a node below it; at rest afterwards, writes below the edge must be announced exactly according to the final graph. distinct = (shape, node|edge, size of expected set, duplicates seen)")
+	c.SetRule("per case a fresh instance and a graph of one generator class (chain, wide, mirror, diamond, tombstoned edge in the middle, node under two parents one of which is deleted, deleted then undeleted, random history, a node whose first edge names no parent and that is placed below a real node later); then every node (incl. the root and one detached node that has points but no edge) is written once with an acknowledged node batch and every placement once with an edge batch (newer than what is stored); an up.> subscription on the writer's connection is drained at the reply barrier and compared with the model: {node} + ancestors through live edges (node points) / through any edges (edge points) + the root sentinel, payload equal to the points sent. In every second case 4-9 random legal graph operations follow (mirror, move, delete, undelete, create) and every node and placement is written and checked again. (Thorough tier: one instance serves 66 000 writes, then 200 quiet nodes are written again at distances around 2^16 writes.) In every third case a concurrent phase follows: an edge is deleted / undeleted 3-8 times while a second connection writes back to back to a node below it; at rest afterwards, writes below the edge must be announced exactly according to the final graph. distinct = (shape, node|edge, size of expected set, duplicates seen)")
 	c.Assume("the store publishes rebroadcasts before the reply on one connection and NATS keeps per-publisher order to a subscriber connection (barrier, DESIGN C05)")
 	nGraphs := c.N(160, 1600)
 	vlib.Parallel(nGraphs, 6, func(i int) {
